@@ -112,7 +112,7 @@ def run_from(kind, ty):
 def worker(p):
     from . import contracts as K
     prog = H.get_program()
-    S.BITS_MODE[:] = ['uf', 128]
+    S.BITS_MODE[:] = ['ladder', 192]        # exact bit-length facts (the pinned code of this property never asks for bits() of a symbolic integer; rewrites might)
     # digit counting (should a refactoring use it here) by its contract, open-ended beyond 60 digits
     K.DIGITS_MAX[0] = 60
     K.OPEN_ENDED[0] = True
